@@ -75,6 +75,8 @@ type serObs struct {
 	Fmt       uint8  `json:"fmt"`
 	IsPayload bool   `json:"is_payload"`
 	IsBody    bool   `json:"is_body"`
+	// GobSkipped (ser.obj only): the envelope returned altered bytes without an error; they were not offered to gob
+	GobSkipped bool `json:"gob_skipped,omitempty"`
 }
 
 func observeDeser(s []byte, uncompress bool, payload, body []byte) (o serObs) {
@@ -185,26 +187,9 @@ func callSerDamage(args json.RawMessage) (interface{}, error) {
 	res.Obs = make([]serObs, len(a.Damages))
 	buf := make([]byte, len(env))
 	for i, d := range a.Damages {
-		var s []byte
-		switch d.Kind {
-		case "none":
-			s = env
-		case "xor":
-			if d.Pos < 0 || d.Pos >= len(env) || d.Val == 0 {
-				return nil, fmt.Errorf("bad xor damage %+v for %d-byte value", d, len(env))
-			}
-			copy(buf, env)
-			buf[d.Pos] ^= d.Val
-			s = buf
-		case "cut":
-			if d.Pos < 0 || d.Pos >= len(env) {
-				return nil, fmt.Errorf("bad cut %+v for %d-byte value", d, len(env))
-			}
-			s = make([]byte, d.Pos) // own backing array, capacity = length: nothing readable beyond the cut
-			copy(s, env[:d.Pos])
-			s = s[:d.Pos:d.Pos]
-		default:
-			return nil, fmt.Errorf("unknown damage kind %q", d.Kind)
+		s, err := applySerDamage(env, buf, d)
+		if err != nil {
+			return nil, err
 		}
 		res.Obs[i] = observeDeser(s, d.Unc, payload, body)
 	}
@@ -229,4 +214,37 @@ func callSerRaw(args json.RawMessage) (interface{}, error) {
 		out[i] = observeDeser(s[:len(s):len(s)], a.Unc[i], nil, nil)
 	}
 	return out, nil
+}
+
+// applySerDamage returns a damaged copy of a serialized value (buf = scratch of len(env)).
+func applySerDamage(env, buf []byte, d serDamage) ([]byte, error) {
+	switch d.Kind {
+	case "none":
+		return env, nil
+	case "xor":
+		if d.Pos < 0 || d.Pos >= len(env) || d.Val == 0 {
+			return nil, fmt.Errorf("bad xor damage %+v for %d-byte value", d, len(env))
+		}
+		copy(buf, env)
+		buf[d.Pos] ^= d.Val
+		return buf, nil
+	case "cut":
+		if d.Pos < 0 || d.Pos >= len(env) {
+			return nil, fmt.Errorf("bad cut %+v for %d-byte value", d, len(env))
+		}
+		s := make([]byte, d.Pos) // own backing array, capacity = length: nothing readable beyond the cut
+		copy(s, env[:d.Pos])
+		return s[:d.Pos:d.Pos], nil
+	case "append": // Pos extra bytes behind the value: zeros when Val = 0, seeded bytes otherwise
+		if d.Pos <= 0 {
+			return nil, fmt.Errorf("bad append %+v", d)
+		}
+		s := make([]byte, len(env)+d.Pos)
+		copy(s, env)
+		if d.Val != 0 {
+			rand.New(rand.NewSource(int64(d.Val)*7919 + int64(d.Pos))).Read(s[len(env):])
+		}
+		return s[:len(s):len(s)], nil
+	}
+	return nil, fmt.Errorf("unknown damage kind %q", d.Kind)
 }
